@@ -159,6 +159,8 @@ def run(case):
     if st_.get("raised2"):
         out.cls("lmax-raised-by>=2-in-one-step")
     out.cls("version=%d" % case["version"], "mode=%d" % case["mode"])
+    if case.get("legs"):
+        out.cls("history-cut-into-%d-runs" % min(len(case["legs"]) + 1, 4))
     out.info = dict(max_steps=st_["steps"], max_points_dim=max(len(drive.dw_points(sa, d)) for d in range(sa.dim)))
     return out
 
